@@ -25,7 +25,7 @@ RULE = (
 )
 ASSUMPTIONS = ["each detection is one opaque atom; rule-side and filter-side detections use disjoint field names", "decoder mc/qparse.py with K0"]
 K = V.K()
-BOUNDS = {"quick": dict(ops=1), "thorough": dict(ops=2)}
+BOUNDS = {"quick": dict(ops=1), "thorough": dict(ops="1 on both sides for every name set; 2 on one side at a time for the first rule name set x 4 filter name sets")}
 RNAMES = [["sel", "flt"], ["sel", "sel_a", "flt"], ["sel", "_u", "flt_a"]]
 FNAMES = [["x", "y"], ["flt", "flt_a"], ["sel", "x_a"], ["x1", "y-2"], ["1x", "y"], ["_x", "y"], ["Not", "y"], ["not_x", "y"], ["Them", "y"], ["x", "x_"]]
 RSEL = [("s", "1 of", "them"), ("s", "all of", "sel*"), ("s", "1 of", "_*"), ("s", "1 of", "*")]
@@ -269,7 +269,19 @@ NSH = 48
 
 
 def space_N(tier):
-    ops = BOUNDS[tier]["ops"]
+    if tier == "thorough":
+        # deeper trees on one side at a time (both sides at depth 2 would be 1.2e8 cases)
+        rn = RNAMES[0]
+        for fn in FNAMES[:4]:
+            for rt in trees_for(rn, RSEL, 2):
+                if T.count_ops(rt) == 2:
+                    for ft in trees_for(fn, FSEL, 1):
+                        yield rn, rt, [(fn, ft)], False, 0
+            for rt in trees_for(rn, RSEL, 1):
+                for ft in trees_for(fn, FSEL, 2):
+                    if T.count_ops(ft) == 2:
+                        yield rn, rt, [(fn, ft)], False, 0
+    ops = 1
     for rn in RNAMES:
         rtrees = trees_for(rn, RSEL, ops)
         for fn in FNAMES:
